@@ -19,7 +19,7 @@ CLAIMS = {
          "required-attribute check, typed props and shorthand equivalence are not yet under contract; contents of the includer's scopes (as opposed to the scope list) are not yet frozen by contract."),
  "C06": ("evalSlot: the props scope pushed for a scoped slot template is popped on every return path (scope list restored).",
          "slot content partition, fallback-iff-absent and per-instance slot scope are not decided."),
- "C07": ("layout loop: destination writer untouched until the final copy (invariant), depth bounded by maxDepth with a decreases clause (termination of every chain/cycle); resolveLayoutPath returns the relative candidate iff it exists, else layouts/<name>.vuego (exact postcondition over Stat).",
+ "C07": ("layout loop: destination writer untouched until the final copy (invariant), depth bounded by maxDepth with a decreases clause (termination of every chain/cycle); each link is resolved relative to the file loaded in the same iteration (assert clauses at the Load and resolveLayoutPath calls); resolveLayoutPath returns the relative candidate iff it exists, else layouts/<name>.vuego (exact postcondition over Stat).",
          "template loading/filling inside the loop is havocked; the default-layout dispatch in Render is not under contract; filepath.Join/Dir and fs.Stat are uninterpreted."),
  "C08": ("template.Fill: the root scope is a fresh map with front-matter > passed data > config for every key (three map-range loops with visited-set invariants, exact postcondition); Stack.EnvMap agrees with Lookup for every name (scopes innermost-first, root struct fields as fallback).",
          "one inner-loop invariant of EnvMap is listed as not decided; toMapData (struct data through reflection) is a trusted contract; loadConfig order not under contract."),
@@ -28,15 +28,15 @@ CLAIMS = {
  "C10": ("Pool discipline: Pop empties a map before Put (loop invariant over the visited set) and only recycles maps that came from the pool (object invariant of Stack, ghost fromPool); the pooled strings.Builder is Reset before Put on every path of interpolate (deferred closure); NewNode zeroes every field; clone helpers copy attribute slices.",
          "determinism of attribute order (map iteration) and cache soundness are not under contract."),
  "C11": ("Zero-annotation panic sweep over every function of the production packages: index/slice bounds, nil dereference, type assertions, nil-map writes, division by zero, explicit panics; layout loop termination (decreases). Discharged obligations form the baseline.",
-         "obligations that do not discharge are listed as undecided and are not counted; recursion depth over includes not yet bounded."),
+         "obligations that do not discharge are listed as undecided and are not counted; recursion depth over includes not yet bounded. Reflection-based traversal and calls (Resolve/resolveStep/internal/reflect, callFunc) are covered only by the two BOUNDED stand-ins of C17 and C13 (a panic there is a bounded failure), never counted as proved."),
  "C12": ("For every render entry point (Render, RenderFile, RenderString, RenderByte, RenderReader, layout, renderWithoutLayout, Vue.Render/RenderFragment/RenderNodes, renderNodesWithContext, render, renderNode(WithContext)): error without writer failure => nothing written; writer failure => non-nil error; nil error => no new writer failure. Writer failure at every offset is the universally quantified Write stub.",
          "assumes the destination writer is reachable only through explicit Write-capable arguments; evaluation (evaluate/preProcess/postProcess) is havocked; io.Copy/WriteTo/Write stubs assumed."),
  "C13": ("The compiled-program cache of ExprEvaluator is sound: every cached program equals the compilation of its key with the evaluator's fixed options (object invariant), so getProgram returns the same program on a hit as on a miss for every cache state.",
-         "expr-lang Compile/Run are uninterpreted stubs; pipe composition, argument conversion (reflection) and uniform normalisation across positions are not under contract."),
+         "expr-lang Compile/Run are uninterpreted stubs; pipe composition and uniform normalisation across positions are not under contract. The reflective call (callFunc/convertValue: context injection, variadics, per-parameter conversion, arity errors) is outside the verifier's subset and is covered only by a BOUNDED stand-in (bounded/C11+C13__callfunc__root.go.txt: 14 signatures x all argument lists of length <= 3 over 8 values = 8190 calls against a reflection-free oracle, run on the real code through go test -overlay), reported under coverage.bounded and never counted as proved."),
  "C14": ("shouldIgnoreAttr == documented directive list; isLiteralAttr; renderAttrs == spec (brackets unwrapped, directives dropped, escaping applied once).",
          "binding evaluation (evalAttributes, class/style merge, v-show) not yet under contract."),
- "C18": ("OverlayFS.Open returns the file of the first non-nil layer that opens the name (recursive spec firstOpen, loop invariant), fs.ErrNotExist otherwise; nil layers never dereferenced; NewOverlayFS builds [upper]++lower in order.",
-         "fs.FS.Open is a deterministic stub; ReadDir and Glob (sort, fs.DirEntry) are not under contract."),
+ "C18": ("OverlayFS.Open returns the file of the first non-nil layer that opens the name (recursive spec firstOpen, loop invariant), fs.ErrNotExist otherwise; nil layers never dereferenced; NewOverlayFS builds [upper]++lower in order. ReadDir: every returned entry is the entry of the first layer (in chain order, nil and failing layers skipped) that lists its name (recursive specs firstEntry/firstIn, three loop invariants).",
+         "fs.FS.Open / fs.ReadDir are deterministic stubs; sort.Slice is modelled as an arbitrary permutation (so the proof does not rely on stability), name-sortedness and completeness of the listing (every name of every layer appears) are not decided; Glob is not under contract."),
  "C15": ("loadCachedWithFrontMatter with the cache as an object invariant of Vue (every entry is the parse of its file at the entry's mtime): a successful load returns the parse for the file's current mtime, a file that cannot be stat-ed is an error, a failed load leaves the cache unchanged, the invariant is re-established on every path.",
          "assumes (trusted contract of loadFragment) that a read returns the content belonging to the mtime a Stat reports at that moment, and equal non-zero mtime => equal content (the cache's documented assumption); Load/include paths that bypass the cache are not related to it by contract."),
  "C16": ("In evaluate, whenever control reaches the v-pre/v-for/v-if dispatch for an element carrying v-once, its id is already recorded in the per-render seen set (assert-at clause); NewVueContext creates a fresh empty seen set; WithTemplate shares it along the include chain.",
